@@ -615,6 +615,7 @@ type Heap struct {
 	cond    string
 	pre     *Heap
 	oldNow  string
+	keep    []string // refs of non-escaping local maps: untouched by this havoc (calls / loop bodies that do not update them)
 }
 
 func (vc *VC) newHeap(kind int) *Heap {
@@ -687,6 +688,12 @@ func (vc *VC) lookup(h *Heap, fam string) string {
 	case hHavocSet:
 		if (inSet(h.set, fam) && !vc.isGhostFam(fam)) || h.set[fam] || h.set[fam+"*"] || h.set[ghostBase(fam)+"*"] {
 			t = vc.declConst(fmt.Sprintf("%s@%d", fam, h.id), srt)
+			if len(h.keep) > 0 && strings.HasPrefix(fam, "M_") {
+				p := vc.lookup(h.parent, fam)
+				for _, r := range h.keep {
+					vc.assert("(= (select " + t + " " + r + ") (select " + p + " " + r + "))")
+				}
+			}
 		} else {
 			t = vc.lookup(h.parent, fam)
 		}
